@@ -385,6 +385,37 @@ pub fn programs_from(sources: &[String]) -> Vec<(String, Vec<RealMode>)> {
                     }
                 }
             }
+        } else if let Some(rest) = s.strip_prefix("tries:") {
+            // word lists over a five-letter alphabet as alternations, some with optional tails: many
+            // states that differ only two or three steps ahead (an over-eager minimiser merges them)
+            let parts: Vec<&str> = rest.split(':').collect();
+            let n: usize = parts[0].parse().unwrap();
+            let seed: u64 = parts[1].parse().unwrap();
+            use rand::prelude::*;
+            let mut r = StdRng::seed_from_u64(seed ^ 0x7e1e5);
+            let letters = ['a', 'b', 'c', 'd', 'e'];
+            let word = |r: &mut StdRng| -> String { let l = r.gen_range(2..=4); (0..l).map(|_| *letters.choose(r).unwrap()).collect() };
+            let fixed = ["a(bc)?|d(be)?", "s(ta|ub)|m(ti|ux)", "a(bc)*|d(be)*", "a(bcd)?|e(bcf)?", "x(ya|zb)c|w(yd|ze)c", "(ab|cd)(ef)?|(ad|cb)(eg)?"];
+            for (k, p) in fixed.iter().enumerate() {
+                progs.push((format!("tries#fixed{k}"), vec![RealMode { name: "M".into(), trans: vec![],
+                    pats: vec![crate::parse::RealPat { pattern: p.to_string(), tt: 7, la: None }, crate::parse::RealPat { pattern: "[a-z]".into(), tt: 2, la: None }] }]));
+            }
+            for k in 0..n {
+                let np = r.gen_range(1..=2);
+                let mut pats = vec![];
+                for pi in 0..np {
+                    let nw = r.gen_range(3..=7);
+                    let alts: Vec<String> = (0..nw).map(|_| {
+                        let w = word(&mut r);
+                        if w.len() >= 3 && r.gen_bool(0.4) {
+                            let cut = r.gen_range(1..w.len());
+                            format!("{}({}){}", &w[..cut], &w[cut..], if r.gen_bool(0.7) { "?" } else { "*" })
+                        } else { w }
+                    }).collect();
+                    pats.push(crate::parse::RealPat { pattern: alts.join("|"), tt: [7usize, 2, 13][pi], la: None });
+                }
+                progs.push((format!("tries#{k}"), vec![RealMode { name: "M".into(), pats, trans: vec![] }]));
+            }
         } else if s == "chains" {
             // automata that need many refinement rounds in the minimiser, well below the sizes of C17
             for (k, p) in ["a{600}b", "(ab){300}c", "a{520}", "x[0-9]{530}y|x[0-9]{529}z"].iter().enumerate() {
